@@ -61,6 +61,8 @@ def check(run):
             empt = (isinstance(t, ast.UnaryOp) and isinstance(t.op, ast.Not) and common.is_name(t.operand, KW)) or \
                 norm_src(t) in (f"len({KW}) == 0", f"{KW} == b''", f"not len({KW})")
             rv = st.body[0].value
+            if isinstance(rv, ast.Name):
+                rv = (common.block_env(fa.node.body, st) or {}).get(rv.id, rv)      # `starts = []` ... `return starts`
             if empt and isinstance(rv, (ast.List, ast.Tuple)) and not rv.elts:
                 okg = True
     run.ob("R6-empty-keyword", "keyword.find_all/empty-keyword-guard", okg, w(fa.node), "an empty keyword yields no hits (and the loop always advances by >= 1)",
@@ -108,14 +110,20 @@ def check(run):
     pc = G.reach(loop.body, common.enclosing_stmt(app), az)
     spec_az = G.Atomizer(subst={"END": common.spec_expr("START + len(KW)")}, is_int=is_int)
     spec = spec_az.formula(common.spec_expr(SPEC.C17_BOUNDARY))
-    ok, cm = G.equivalent(pc, spec)
+    # inside the loop START is a find() result: 0 <= START and START + len(KW) <= len(DATA)
+    # ... and a slice that starts at or beyond the end of the data (or ends at 0) is empty, so its isalnum() is False
+    facts = spec_az.formula(common.spec_expr(
+        "START >= 0 and START + len(KW) <= len(DATA) and len(KW) >= 1 and START + len(KW) >= 1 and START - 1 >= -1 and START < len(DATA) and (START > 0 or not DATA[START - 1:START].isalnum()) and "
+        "(START + len(KW) < len(DATA) or not DATA[START + len(KW):START + len(KW) + 1].isalnum())"))
+    ok, cm = G.equivalent(pc, spec, assuming=facts)
     run.ob("R1-boundary", "keyword.find_all/boundary-guard", ok, w(app),
            "an occurrence is reported iff (start == 0 or byte before is not alnum) and (end == len(data) or byte after is not alnum)",
            f"guard is {G.show(pc)}; differs from the statement at {G.show_model(cm) if cm else ''}", mech="truth table with integer theory")
     okv = len(app.args) == 1 and common.is_name(app.args[0], START)
     run.ob("R1-boundary", "keyword.find_all/appends-start", okv, w(app), "the reported position is the occurrence's start",
            f"appends `{norm_src(app.args[0]) if app.args else ''}`", mech="argument identity")
-    rets = [n for n in own_nodes(fa.node) if isinstance(n, ast.Return) and n.value is not None and not (isinstance(n.value, ast.List) and not n.value.elts)]
+    in_guard = {id(n) for st in pre if isinstance(st, ast.If) for n in ast.walk(st)}
+    rets = [n for n in own_nodes(fa.node) if isinstance(n, ast.Return) and n.value is not None and not (isinstance(n.value, ast.List) and not n.value.elts) and id(n) not in in_guard]
     okr = len(rets) == 1 and norm_src(rets[0].value) == OUT
     run.ob("R1-boundary", "keyword.find_all/returns-all", okr, w(rets[0]) if rets else w(fa.node), "find_all returns the collected list unchanged",
            f"returns `{norm_src(rets[0].value) if rets else None}`", mech="return-shape match")
@@ -151,6 +159,11 @@ def check(run):
     env2 = common.block_env(fk.node.body, common.enclosing_stmt(sites[0]), unpack=True) or {}
     env2 = {k: v for k, v in env2.items() if k not in (K, S)}
     call = g_st_iter
+    if isinstance(call, ast.Name):
+        # occurrences through a temporary: starts = find_all(...); for start in starts
+        defs_ = [n.value for n in own_nodes(fk.node) if isinstance(n, ast.Assign) and len(n.targets) == 1 and common.is_name(n.targets[0], call.id)]
+        if len(defs_) == 1:
+            call = defs_[0]
     ok2 = False
     det = f"`{norm_src(call)}`"
     if isinstance(call, ast.Call) and prog.callee(km, fk, call).func is fa and len(call.args) == 2:
@@ -216,7 +229,8 @@ def check(run):
                 if len(i1.body) == 1 and isinstance(i1.body[0], ast.Return) and prog.try_fold(km, i1.body[0].value) is True and not i1.orelse:
                     envb = common.block_env(lp.body, i1, unpack=True) or {}
                     azb = G.Atomizer(rename=ren, subst={k: v for k, v in envb.items() if k not in ren})
-                    ok_loop, cm = G.equivalent(azb.formula(i1.test), azb.formula(common.spec_expr(SPEC.C17_MIXED_BYTE)))
+                    ok_loop, cm = G.equivalent(azb.formula(i1.test), azb.formula(common.spec_expr(SPEC.C17_MIXED_BYTE)),
+                                          assuming=azb.formula(common.spec_expr("not (chr(RAWB).isupper() and chr(RAWB).islower()) and not (chr(KWB).isupper() and chr(KWB).islower())")))
                     det = f"per-byte test {G.show(azb.formula(i1.test))}"
         ok_tail = prog.try_fold(km, rt.value) is False
     if len(body) == 2 and isinstance(body[0], ast.If) and isinstance(body[1], ast.Return) and isinstance(body[1].value, ast.Call) and \
@@ -237,7 +251,8 @@ def check(run):
                     ren[tv] = "KWB"
             if set(ren.values()) == {"RAWB", "KWB"}:
                 azb = G.Atomizer(rename=ren)
-                ok_loop, cm = G.equivalent(azb.formula(gen_.elt), azb.formula(common.spec_expr(SPEC.C17_MIXED_BYTE)))
+                ok_loop, cm = G.equivalent(azb.formula(gen_.elt), azb.formula(common.spec_expr(SPEC.C17_MIXED_BYTE)),
+                                          assuming=azb.formula(common.spec_expr("not (chr(RAWB).isupper() and chr(RAWB).islower()) and not (chr(KWB).isupper() and chr(KWB).islower())")))
                 det = f"per-byte test {G.show(azb.formula(gen_.elt))}"
                 ok_tail = True      # any() of no true element is False
     run.ob("R5-mixedcase", "keyword.is_mixed_case/uniform-case-excluded", ok_pre, w(mc.node),
